@@ -220,7 +220,7 @@ func (p *Policy) Assemble() ([]bpf.Instruction, error) {
 			group.arch = p.arch
 		}
 
-		groupInsts, err := group.Assemble(p.DefaultAction)
+		groupInsts, err := group.assemble()
 		if err != nil {
 			return nil, err
 		}
@@ -242,7 +242,7 @@ func (p *Policy) Assemble() ([]bpf.Instruction, error) {
 	program = append(program, bpf.LoadAbsolute{Off: archOffset, Size: sizeOfUint32})
 
 	// If the loaded arch ID is not equal p.arch.ID, jump to the final Ret instruction.
-	jumpN := len(x32Filter) + len(instructions) - 1
+	jumpN := len(x32Filter) + len(instructions) + 1
 	if jumpN <= 255 {
 		program = append(program, bpf.JumpIf{Cond: bpf.JumpNotEqual, Val: uint32(p.arch.ID), SkipTrue: uint8(jumpN)})
 	} else {
@@ -254,6 +254,9 @@ func (p *Policy) Assemble() ([]bpf.Instruction, error) {
 	program = append(program, bpf.LoadAbsolute{Off: syscallNumOffset, Size: sizeOfUint32})
 	program = append(program, x32Filter...)
 	program = append(program, instructions...)
+
+	// No group matched.
+	program = append(program, bpf.RetConstant{Val: returnValue(p.DefaultAction)})
 	return program, nil
 }
 
@@ -346,7 +349,20 @@ func (g *SyscallGroup) toSyscallsWithConditions() ([]SyscallWithConditions, erro
 	return syscalls, nil
 }
 
+// Assemble assembles the group into a list of BPF instructions that return the
+// action of the group if one of its syscalls matches and defaultAction otherwise.
 func (g *SyscallGroup) Assemble(defaultAction Action) ([]bpf.Instruction, error) {
+	instructions, err := g.assemble()
+	if err != nil || len(instructions) == 0 {
+		return nil, err
+	}
+	return append(instructions, bpf.RetConstant{Val: returnValue(defaultAction)}), nil
+}
+
+// assemble assembles the group into a list of BPF instructions that return the
+// action of the group if one of its syscalls matches. Otherwise the execution
+// continues with the instruction that follows the group.
+func (g *SyscallGroup) assemble() ([]bpf.Instruction, error) {
 	if len(g.Names) == 0 && len(g.NamesWithCondtions) == 0 {
 		return nil, nil
 	}
@@ -364,10 +380,14 @@ func (g *SyscallGroup) Assemble(defaultAction Action) ([]bpf.Instruction, error)
 		syscall.Assemble(&p, action)
 	}
 
-	p.Ret(defaultAction)
+	// No syscall of the group matched.
+	nextGroup := p.NewLabel()
+	p.Jmp(nextGroup)
 
 	p.SetLabel(action)
 	p.Ret(g.Action)
+
+	p.SetLabel(nextGroup)
 
 	return p.Assemble()
 }
